@@ -69,8 +69,30 @@ def apply_op(model, fam, op, arg):
         model.set_output_names({F['oren'][0]: F['oren'][1]})
     elif op == 'sim':
         observe(model, fam)
+    elif op == 'bad':
+        # MechModel!"bad": a call chi must reject -- and that must leave the model as it was (also its solver)
+        try:
+            if arg == 'outs':
+                model.set_outputs([default_outputs(model)[0], 'no.such_variable'])
+            elif arg == 'adm':
+                model.set_administration('no_such_compartment', direct=False)
+            elif arg == 'sens':
+                model.enable_sensitivities(True, ['no.such_parameter'])
+            else:
+                model.set_parameter_names(['not', 'a', 'dictionary'])
+        except (ValueError, KeyError, TypeError) as e:
+            raise Rejected(repr(e))
+        raise Accepted(arg)   # (whether chi rejects such a call is not what C11 is about; the specification only covers REJECTED calls)
     else:
         raise ValueError(op)
+
+
+class Rejected(Exception):
+    pass
+
+
+class Accepted(Exception):
+    pass
 
 
 def default_outputs(model):
@@ -205,12 +227,15 @@ def replay_transition(arg):
     raised = None
     try:
         apply_op(model, fam, op['op'], op['arg'])
-    except ValueError as e:
+    except (ValueError, Rejected) as e:
         raised = e
+    except Accepted:
+        cnt['invalid_calls_accepted'] = 1
+        return fails, cnt
     except Exception as e:
         fail('HistoryIndependence', type(e).__name__, dict(error=repr(e)))
         return fails, cnt
-    expect_raise = (op['op'] == 'reg' and src['admin'] == 'none')
+    expect_raise = (op['op'] == 'reg' and src['admin'] == 'none') or (op['op'] == 'bad' and raised is not None)
     if expect_raise != (raised is not None):
         fail('Effect', 'raise', dict(expected=expect_raise, raised=repr(raised)))
         return fails, cnt
@@ -259,6 +284,11 @@ def replay_walk(arg):
             else:
                 try:
                     apply_op(inst[m], fam, op['op'], op['arg'])
+                except Accepted:
+                    cnt['invalid_calls_accepted'] = cnt.get('invalid_calls_accepted', 0) + 1
+                    break
+                except Rejected:
+                    cnt['rejected_calls'] = cnt.get('rejected_calls', 0) + 1
                 except ValueError:
                     if not (op['op'] == 'reg' and rec['src'][m - 1]['admin'] == 'none'):
                         raise
